@@ -143,6 +143,10 @@ Fixpoint read_sections (fuel : nat) (index : list N) (w0 w1 w2 : N) (data : byte
     end
   end.
 
+(** the dictionary of a stream value *)
+Definition stream_dict (p : prim) : option dict :=
+  match p with PStream d _ _ _ _ => Some d | PStreamData d _ => Some d | _ => None end.
+
 (** xref.rs: XRefTable::new *)
 Definition table_new (n : N) : list xent := repeatN XInvalid (N.to_nat n) ++ [XFree 0 65535].
 
@@ -420,11 +424,11 @@ Definition write_revision (s : st) (td : dict) : res st + (list xent * res unit)
     match write_stream rf2 (X + 1) with
     | Ok (aw, bw, data) =>
       let xd := xref_info_dict (X + 1) aw bw (lenN data) in
-      match ser (PStream (merge_dict xd td) (SPending data)) with
+      match ser (PStreamData (merge_dict xd td) data) with
       | Ok xs =>
         let out2 := out1 ++ obj_header X 0 ++ xs ++ kw_endobj_nl in
         (* fulfill(xref_promise, stream): update on a Raw entry *)
-        let ch := cinsert (changes s) X (PStream xd (SPending data), 0) in
+        let ch := cinsert (changes s) X (PStreamData xd data, 0) in
         inl (Ok (mkSt rf2 ch (backend s ++ out2 ++ startxref_tail xpos) (start s) [] (cached s)))
       | Err e => inr (rf2, Err e)
       | Panic k => inr (rf2, Panic k)
@@ -464,8 +468,8 @@ Definition save (s : st) (tr : trailer) : res (st * trailer * option N) :=
 (** parse_xref.rs: parse_xref_stream_and_trailer (the stream must be unfiltered: Err 96 otherwise) *)
 Definition read_xref_stream (b : bytes) (pos : N) : res (list section * dict) :=
   do x <- parse_obj b pos;
-  match snd x with
-  | PStream d inner =>
+  match stream_dict (snd x) with
+  | Some d =>
     match dget d k_Filter with
     | Some _ => Err 96
     | None =>
@@ -481,7 +485,7 @@ Definition read_xref_stream (b : bytes) (pos : N) : res (list section * dict) :=
                          | Some _ => None
                          | None => Some [0; size]
                          end in
-            match index, raw_data b inner with
+            match index, raw_data b (snd x) with
             | Some ix, Some data =>
               if negb (N.even (lenN ix)) then Err 9 else
               do ss <- read_sections (S (length ix)) ix w0 w1 w2 data;
@@ -495,7 +499,7 @@ Definition read_xref_stream (b : bytes) (pos : N) : res (list section * dict) :=
       | _ => Err 9
       end
     end
-  | _ => Err 9
+  | None => Err 9
   end.
 
 (** parse_xref.rs: read_xref_and_trailer_at *)
